@@ -3,6 +3,7 @@ C08 — Closest-node and distance lookups are exact.
 Property theorems only (helper lemmas live in `Proofs/ClosestLemmas.lean`).
 -/
 import Discv5Model.Proofs.ClosestLemmas
+import Discv5Model.Proofs.KBucketLemmas
 
 namespace Discv5.KB
 
@@ -10,20 +11,21 @@ variable {V : Type} [DecidableEq V]
 
 /-- The closest-buckets iterator visits every bucket exactly once, for every distance. -/
 theorem bucketOrder_perm (d : Nat) (h : d < 2 ^ 256) : (bucketOrder d).Perm (List.range 256) := by
-  sorry
+  rw [bucketOrder_eq_closed d h]
+  exact closedOrder_perm d h
 
 /-- Iterating by closeness yields nodes in strictly increasing XOR distance to the target. -/
 theorem closest_sorted (c : Cfg V) (now : Nat) (t : Table V) (target : Nat) (h : TInv c t)
     (hl : t.localKey < 2 ^ 256) (ht : target < 2 ^ 256) :
     (t.closest c now target).2.Pairwise (fun a b => (a.key ^^^ target) < (b.key ^^^ target)) := by
-  sorry
+  exact closest_sorted_aux c now t target (applyAt_inv c now) h hl ht
 
 /-- … and yields every stored node exactly once (the table after the lazily applied pending
 nodes). -/
 theorem closest_complete (c : Cfg V) (now : Nat) (t : Table V) (target : Nat) (h : TInv c t)
     (hl : t.localKey < 2 ^ 256) (ht : target < 2 ^ 256) :
     (t.closest c now target).2.Perm (t.closest c now target).1.allNodes := by
-  sorry
+  exact closest_complete_aux c now t target (applyAt_inv c now) h hl ht
 
 /-- … i.e. exactly the sorted full scan. -/
 theorem closest_eq_sorted_scan (c : Cfg V) (now : Nat) (t : Table V) (target : Nat) (h : TInv c t)
@@ -31,13 +33,20 @@ theorem closest_eq_sorted_scan (c : Cfg V) (now : Nat) (t : Table V) (target : N
     (t.closest c now target).2.map (·.key) =
       ((t.closest c now target).1.allNodes.map (·.key)).mergeSort
         (fun a b => decide ((a ^^^ target) ≤ (b ^^^ target))) := by
-  sorry
+  exact closest_eq_sorted_scan_aux c now t target (applyAt_inv c now) h hl ht
 
 /-- The predicate variant yields the same sequence with correct match flags. -/
 theorem closestPred_spec (c : Cfg V) (now : Nat) (t : Table V) (target : Nat) (pred : V → Bool) :
     (t.closestPred c now target pred).2.map (·.1) = (t.closest c now target).2 ∧
     ∀ x ∈ (t.closestPred c now target pred).2, x.2 = pred x.1.value := by
-  sorry
+  rw [closestPred_snd]
+  constructor
+  · rw [List.map_map]
+    exact List.map_id _
+  · intro x hx
+    rw [List.mem_map] at hx
+    obtain ⟨n, _, rfl⟩ := hx
+    rfl
 
 /-- A lookup by distinct log2 distances returns only nodes at those distances, nothing for
 distances outside 1..256, all of them when they are fewer than the cap and exactly `maxNodes`
@@ -48,6 +57,6 @@ theorem nodesByDistances_exact (c : Cfg V) (now : Nat) (t : Table V) (ds : List 
     let want := (ds.filter (fun d => 1 ≤ d ∧ d ≤ 256)).flatMap (fun d => (r.1.bucket (d - 1)).nodes)
     (∀ n ∈ r.2, ∃ d ∈ ds, 1 ≤ d ∧ d ≤ 256 ∧ bucketIndex t.localKey n.key = some (d - 1)) ∧
     r.2 = want.take maxNodes ∧ (r.2.map (·.key)).Nodup := by
-  sorry
+  exact nodesByDistances_aux c now t ds maxNodes (applyAt_inv c now) h hd hm
 
 end Discv5.KB
